@@ -321,6 +321,53 @@ def anchor_parallel(chk: Check):
                 chk.violation("LabelPerms[anchor decay-parallel]: column of compartment", f"order {order}: column under {c} is not exp(-{rates[c]} t)/3: {col.tolist()}", {"engine": "c06-anchor"})
 
 
+def anchor_split_decay(chk: Check):
+    """Two general-decay megacomplexes of one dataset on disjoint compartments (m1 on s1; m2 on the chain s2 -> s3), one dataset-wide
+    initial concentration with unequal excitations: for every declaration order of the initial-concentration compartments and both orders of
+    the megacomplex list, the column under a compartment is the analytic concentration of THAT compartment (its own excitation)."""
+    import itertools
+    import numpy as np
+    from glotaran.builtin.megacomplexes.decay import DecayMegacomplex
+    from glotaran.model import Model
+    from glotaran.model.item import fill_item
+    from glotaran.optimization.matrix_provider import MatrixProvider
+    from glotaran.parameter import Parameters
+    M = Model.create_class_from_megacomplexes([DecayMegacomplex])
+    j = {"s1": 1.0, "s2": 3.0, "s3": 0.5}
+    k1, k2, k3, k23 = 0.9, 0.25, 0.06, 0.4
+    params = Parameters.from_dict({"j": [[c, v, {"vary": False}] for c, v in j.items()], "k": [["1", k1], ["2", k2], ["3", k3], ["23", k23]]})
+    t = np.array([0.0, 0.25, 0.5, 1.0, 2.0, 5.0, 9.0])
+    tot = sum(j.values())
+    out2 = k2 + k23                                  # total loss rate of s2
+    want = {"s1": j["s1"] / tot * np.exp(-k1 * t),
+            "s2": j["s2"] / tot * np.exp(-out2 * t),
+            "s3": j["s3"] / tot * np.exp(-k3 * t) + j["s2"] / tot * k23 / (out2 - k3) * (np.exp(-k3 * t) - np.exp(-out2 * t))}
+    for order in itertools.permutations(["s1", "s2", "s3"]):
+        for mcs in (["m1", "m2"], ["m2", "m1"]):
+            rep = {"engine": "c06-anchor-split"}
+            chk.evaluations += 1
+            try:
+                model = M(initial_concentration={"j": {"compartments": list(order), "parameters": [f"j.{c}" for c in order]}},
+                          k_matrix={"km1": {"matrix": {("s1", "s1"): "k.1"}},
+                                    "km2": {"matrix": {("s3", "s2"): "k.23", ("s2", "s2"): "k.2", ("s3", "s3"): "k.3"}}},
+                          megacomplex={"m1": {"type": "decay", "k_matrix": ["km1"]}, "m2": {"type": "decay", "k_matrix": ["km2"]}},
+                          dataset={"ds": {"initial_concentration": "j", "megacomplex": mcs}})
+                cont = MatrixProvider.calculate_dataset_matrix(fill_item(model.dataset["ds"], model, params), np.array([0.0]), t)
+            except Exception as ex:  # noqa: BLE001
+                chk.violation("LabelPerms[anchor split decay] raises", f"compartment order {order}, megacomplexes {mcs}: {type(ex).__name__}: {str(ex)[:200]}", rep)
+                continue
+            if sorted(cont.clp_labels) != ["s1", "s2", "s3"]:
+                chk.violation("LabelPerms[anchor split decay]: labels", f"compartment order {order}, megacomplexes {mcs}: labels {cont.clp_labels}", rep)
+                continue
+            for c in order:
+                col = cont.matrix[:, cont.clp_labels.index(c)]
+                if not np.allclose(col, want[c], rtol=1e-9, atol=1e-12):
+                    chk.violation("LabelPerms[anchor split decay]: column of compartment",
+                                  f"compartment order {order}, megacomplexes {mcs}: the column under {c} is not the concentration of {c} "
+                                  f"(excitation {j[c]}/{tot}): got {col.tolist()}, want {want[c].tolist()}", rep)
+                    break
+
+
 def run(tier: str, replay=None) -> int:
     chk = Check("C06", tier)
     rng = random.Random(seed() + 606)
@@ -336,6 +383,8 @@ def run(tier: str, replay=None) -> int:
             compare_builtin(chk, r["pick"])
         elif r["engine"] == "c06-anchor":
             anchor_parallel(chk)
+        elif r["engine"] == "c06-anchor-split":
+            anchor_split_decay(chk)
         else:
             lattice_part(chk, tier)
         return chk.finish()
@@ -365,4 +414,5 @@ def run(tier: str, replay=None) -> int:
         compare_builtin(chk, p)
     chk.sample({"builtin_permutation": sel[0]})
     anchor_parallel(chk)
+    anchor_split_decay(chk)
     return chk.finish()
